@@ -191,6 +191,11 @@ Fixpoint once_per_round (dec pv : bool) (t : list obs) : bool :=
   | [] => true
   | (ev, its) :: rest =>
       let st0 := if hd0 ev =? 1 then (true, false, false) else (true, dec, pv) in
+      (* the observation lists the kernel goroutine's outputs before the consensus manager's; the request for the
+         precommit decision (made by the consensus manager) of an event that also announces a round entrance was made
+         BEFORE that entrance (after announcing it the kernel waits for the entrance response): it belongs to the
+         round being left, so the decision requests of an event are looked at first *)
+      let its := filter (fun it => hd0 it =? 5) its ++ filter (fun it => negb (hd0 it =? 5)) its in
       let step := fold_left (fun (acc : bool * bool * bool) it =>
                     let '(ok, d, p) := acc in
                     let tg := hd0 it in
